@@ -247,6 +247,9 @@ func verifyFunc(prog *Program, fi *FuncInfo, fc *FuncContract, mode *ModeDef) (r
 	for _, rq := range fc.Requires {
 		x.assume(st, x.specTerm(rq.Expr, env0))
 	}
+	for _, l := range x.lockClasses() {
+		x.setHeap(st, x.didLockKey(l), tFalse)
+	}
 	x.entry = st.clone()
 	heldAtEntry := map[string]Term{}
 	for _, l := range x.lockClasses() {
@@ -291,6 +294,7 @@ func verifyFunc(prog *Program, fi *FuncInfo, fc *FuncContract, mode *ModeDef) (r
 			x.assert(final, "post", g.label(en.Label), g.t, en.Tags, fi.Decl.End())
 		}
 	}
+	x.assert(final, "vacuity", "false must not be provable at exit", tFalse, nil, fi.Decl.End())
 	for _, l := range x.lockClasses() {
 		x.assertSafety(final, "lock", "lock balance: "+l+" is held at exit exactly if it was at entry", tEq(x.heldTerm(final, l), heldAtEntry[l]), fi.Decl.End())
 	}
